@@ -113,6 +113,43 @@ def task_h2f(a, env):
     return r
 
 
+def pair_case(a):
+    """one history: the same inputs under hash h1, then h2, then h1 again"""
+    out = []
+    for hn in (a["h1"], a["h2"], a["h1"]):
+        exp, got = xmd_case({"h": hn, "lm": a["lm"], "ld": a["ld"], "n": a["n"]})
+        out.append((hn, exp, got))
+    return out
+
+
+def task_xmd_pairs(a, env):
+    r = R("expand_message_xmd:hash-function-sequences")
+    for h1 in a["h1s"]:
+        for h2 in a["h2s"]:
+            if h1 == h2:
+                continue
+            for (lm, ld, n) in ((3, 5, 40), (0, 0, 1), (200, 255, 300)):
+                c = {"h1": h1, "h2": h2, "lm": lm, "ld": ld, "n": n}
+                res = pair_case(c)
+                r.ev += 3
+                r.dk.add((h1, h2, lm))
+                for i, (hn, exp, got) in enumerate(res):
+                    if exp != got:
+                        r.viol("C15:xmd:sequence:%s" % ("same-block-size" if hashlib.new(h1).block_size ==
+                                                        hashlib.new(h2).block_size else "other"), ME + ":replay_pair", c, exp, got,
+                               note="step %d (%s) of %s,%s,%s" % (i, hn, h1, h2, h1))
+                        break
+    r.sample({"sequence": "xmd under h1, then h2, then h1 on equal inputs", "h1": a["h1s"], "h2": a["h2s"][:4]})
+    return r
+
+
+def replay_pair(a):
+    for i, (hn, exp, got) in enumerate(pair_case(a)):
+        if exp != got:
+            return {"step": i, "hash": hn, "expected": exp, "observed": got}
+    return None
+
+
 def replay(a):
     exp, got = (xmd_case if a["f"] == "xmd" else h2f_case)(a)
     return None if exp == got else {"expected": exp, "observed": got}
@@ -139,6 +176,8 @@ def run(ctx):
         split = 4 if q else 8
         for i in range(split):
             tasks.append(("xmd", {"h": hn, "lms": lms[i::split], "lds": lds, "ns": ns, "sample": i == 0}))
+    for h1 in hashes:
+        tasks.append(("xmd_pairs", {"h1s": [h1], "h2s": hashes}))
     for m in (1, 2):
         for hs in (["sha256"], ["sha512", "sha3_256"], ["sha1", "blake2b"] if not q else ["sha1"]):
             tasks.append(("h2f", {"m": m, "hs": hs, "lms": [0, 3, 16, 64, 128, 1000], "lds": [0, 1, 43, 255, 256],
